@@ -8,7 +8,17 @@ def plan(tier, seed):
     for n in range(0, nmax + 1):
         units.append(dict(hfile='free.py', fname='c07a_free', args=(n,), summary_mode=True,
                           split=(256 if n >= 5 else 96 if n == 4 else (8 if n == 3 else 0))))
+    from vt import faultplan
+    units += faultplan.fault_units(tier, seed)
+    units += faultplan.closer_units(tier, seed)
     return dict(units=units,
-                bounds={'free_strings': '(a) strict ok => tolerant identical: every string of length 0..%d over all code points' % nmax},
+                bounds={'faulted_documents': 'every truncation (+ one free character), substitution of one position by a free character, insertion of a free character, deletion and adjacent transposition at every position of %d base documents (<= 40 / 60 characters)' % len(faultplan.base_docs(tier, seed)), 'deleted_closers': 'every single closer (}, ] of an argument where no later ] re-balances, \\end{name}) of every 3rd skeleton variant without math/verbatim/list', 'free_strings': '(a) strict ok => tolerant identical: every string of length 0..%d over all code points' % nmax},
                 outside=['strings longer than %d characters' % nmax],
                 assumptions=[])
+
+
+def signature(v):
+    d = v.get('detail') or {}
+    if isinstance(d, dict) and d.get('sig'):
+        return '%s|%s' % (v['label'], d['sig'])
+    return v['label']
